@@ -490,6 +490,43 @@ class MiniFrame(object):
         return {c: dict(zip(self._index, v)) for c, v in self._cols.items()}
 
 
+class Matrix(object):
+    """2-d array made by np.array(list of equally long lists): only what building a DataFrame from it needs"""
+    _sa_mock = True
+
+    def __init__(self, rows):
+        self.rows = [list(r) for r in rows]
+        if len({len(r) for r in self.rows}) > 1:
+            raise ValueError("setting an array element with a sequence. The requested array has an inhomogeneous shape (rows of different lengths)")
+
+    @property
+    def shape(self):
+        return (len(self.rows), len(self.rows[0]) if self.rows else 0)
+
+    def transpose(self):
+        n = len(self.rows[0]) if self.rows else 0
+        return Matrix([[r[j] for r in self.rows] for j in range(n)])
+
+    @property
+    def T(self):
+        return self.transpose()
+
+
+def frame_from(data=None, index=None, columns=None, dtype=None):
+    """pd.DataFrame(...) of the stand-in world: a Matrix with index and column labels, or whatever MiniFrame takes"""
+    if isinstance(data, Matrix):
+        nrows, ncols = data.shape
+        cols = list(columns) if columns is not None else list(range(ncols))
+        idx = list(index) if index is not None else list(range(nrows))
+        if data.rows and (ncols != len(cols) or nrows != len(idx)):
+            raise ValueError("Shape of passed values is %s, indices imply %s" % ((nrows, ncols), (len(idx), len(cols))))
+        if not data.rows and idx:
+            # np.array([[], []]).transpose() has shape (0, n): no row although the index has entries
+            raise ValueError("Shape of passed values is %s, indices imply %s" % ((0, len(cols)), (len(idx), len(cols))))
+        return MiniFrame({c: [data.rows[i][j] for i in range(nrows)] for j, c in enumerate(cols)}, index=idx)
+    return MiniFrame(data, index=index, columns=columns, dtype=dtype)
+
+
 def concat(objs, axis=0):
     objs = list(objs)
     if axis != 1 or not all(isinstance(o, MiniSeries) for o in objs):
@@ -508,4 +545,4 @@ def concat(objs, axis=0):
 
 def pandas_namespace():
     from .concrete import Namespace
-    return Namespace("pandas", Series=MiniSeries, DataFrame=MiniFrame, concat=concat, Index=MiniIndex, isna=_isnan, isnull=_isnan)
+    return Namespace("pandas", Series=MiniSeries, DataFrame=frame_from, concat=concat, Index=MiniIndex, isna=_isnan, isnull=_isnan)
